@@ -33,6 +33,7 @@
 //! `FEEL` days and time durations.
 
 use self::errors::*;
+use super::fraction_to_nanos;
 use dmntk_common::DmntkError;
 use regex::Regex;
 use std::convert::TryFrom;
@@ -211,10 +212,7 @@ impl TryFrom<&str> for FeelDaysAndTimeDuration {
         }
       }
       if let Some(fractional_match) = captures.name("fractional") {
-        if let Ok(fractional) = fractional_match.as_str().parse::<f64>() {
-          nanoseconds += (fractional * NANOSECONDS_IN_SECOND as f64).trunc() as i128;
-          is_valid = true;
-        }
+        nanoseconds += fraction_to_nanos(fractional_match.as_str()) as i128;
       }
       if captures.name("sign").is_some() {
         nanoseconds = -nanoseconds;
